@@ -10,7 +10,7 @@ from .. import oracle as O
 from ..core import Stats
 from ..world import World
 
-AMOUNTS = ['i:1', 'D:2.5', 'F:-2/7', 'i:1000000000000', 'D:0.000001']
+AMOUNTS = ['i:1', 'D:2.5', 'F:-2/7', 'i:1000000000000', 'D:0.000001', 'i:0']
 
 SI = {  # hand-entered from the SI brochure (9th ed.), table 7
     'Yocto': ('y', -24), 'Zepto': ('z', -21), 'Atto': ('a', -18),
@@ -86,6 +86,18 @@ def check_pair(st, w, tname, s1, s2, amounts=AMOUNTS):
             out.append((f'C20:pair:{tname}',
                         f"{a} {s1} -> {s2}: got {got!r}, reference {want}"))
             break
+        if tm.quantum is None:
+            try:
+                r = q.convert(u2)
+                ok = r.unit is u2 and O.fr(r.amount) == want
+            except Exception as exc:
+                r, ok = type(exc).__name__, False
+            st.transitions += 1
+            if not ok:
+                out.append((f'C20:pair-convert:{tname}',
+                            f"({a} {s1}).convert({s2}) = {r!r}, reference "
+                            f"{want} {s2}"))
+                break
     return out
 
 
@@ -295,7 +307,50 @@ def check_types(st, w):
     return out
 
 
+def after_rejected_redeclarations(_=None):
+    """(fork) Try to re-declare every predefined symbol in its own type with
+    another scale -- each attempt must be rejected -- then the catalogue as
+    published by the types must still be the reference catalogue."""
+    from decimalfp import Decimal
+    st = Stats()
+    w = World(catalogue=True)
+    out = []
+    for tname, (dim, ref, quantum, units) in O.CATALOGUE.items():
+        cls = w.types[tname]
+        for sym in units:
+            try:
+                if ref is None:
+                    cls.new_unit(sym)
+                else:
+                    cls.new_unit(sym, 'again', Decimal('0.9') * cls.ref_unit)
+                out.append((f'C20:redeclaration-accepted:{sym}',
+                            f"{tname}.new_unit({sym!r}) was accepted"))
+            except ValueError:
+                pass
+    for tname, (dim, ref, quantum, units) in O.CATALOGUE.items():
+        cls = w.types[tname]
+        out += [(sg + ':after-rejected-redeclaration', m)
+                for sg, m in check_types(st, w)] if tname == 'Mass' else []
+        for sym in units:
+            u = w.q.Unit(sym)
+            try:
+                same = cls.get_unit_by_symbol(sym) is u and \
+                    [x for x in cls.units() if x.symbol == sym][0] is u
+            except Exception:
+                same = False
+            if not same:
+                out.append(('C20:catalogue-changed-by-rejected-declaration',
+                            f"{tname} no longer publishes the predefined "
+                            f"unit {sym}"))
+            out += [(sg + ':after-rejected-redeclaration', m)
+                    for sg, m in check_unit(st, w, tname, sym)]
+    return out
+
+
 def replay(case):
+    if case == ['after-rejected-redeclarations']:
+        from ..hist import fork_call
+        return fork_call(after_rejected_redeclarations)
     return run_case(case)
 
 
@@ -352,6 +407,12 @@ def run(tier, seed):
                                  ['pair-after-stir', tname, s1, s2])
                 st.paths += 1
     st.transitions += n_stir
+    from ..hist import fork_call
+    st.paths += 1
+    st.transitions += len(O.UNIT_REF)
+    st.evaluations += 2 * len(O.UNIT_REF)
+    for sig, msg in fork_call(after_rejected_redeclarations):
+        st.violation(sig, msg, ['after-rejected-redeclarations'])
     st.sample({'case': ['pair', 'Length', 'mi', 'in'],
                'meaning': '5 amounts converted mi->in vs 1609.344/0.0254'})
     st.sample({'case': ['unit', 'Mass', 'oz'], 'reference': '0.028349523125'})
